@@ -126,6 +126,15 @@ class _Busy:
                 raise HarnessError("server still busy after %ss" % timeout)
 
 
+def _nodelay(req):
+    """TCP_NODELAY on accepted sockets: dulwich's server writes many small pkt-lines, and Nagle +
+    delayed ACK on loopback costs 40 ms per exchange.  Latency only; no byte changes."""
+    import socket
+
+    req[0].setsockopt(socket.IPPROTO_TCP, socket.TCP_NODELAY, 1)
+    return req
+
+
 class _ServerBase:
     """Owns the thread, the swappable backend and the error log."""
 
@@ -172,6 +181,9 @@ class TcpServer(_ServerBase):
         outer = self
 
         class Srv(TCPGitServer):
+            def get_request(self):
+                return _nodelay(super().get_request())
+
             def process_request(self, request, client_address):
                 outer.busy.enter()
                 try:
@@ -209,6 +221,9 @@ class HttpServer(_ServerBase):
         self.app = LimitedInputFilter(GunzipFilter(app))  # == make_wsgi_chain
 
         class Srv(WSGIServerLogger):
+            def get_request(self):
+                return _nodelay(super().get_request())
+
             def process_request(self, request, client_address):
                 outer.busy.enter()
                 try:
